@@ -567,3 +567,23 @@ Print Assumptions C05_encrypt_preserves_savable.
 Print Assumptions C05_encrypt_save_load_decrypt_full.
 Print Assumptions C05_encrypt_save_load_decrypt_full_concrete.
 Print Assumptions C05_example_save_load_full.
+
+(* ------------------------------------------------------------------------------------------
+   Towards a size hypothesis on the PLAIN document only (what is proved, what is not: notes/C05.md "Round 7").
+   [small_file xt d1] (the file written from the ENCRYPTED document is below 4 GiB) is still a hypothesis of
+   C05_encrypt_save_load_decrypt_full.  The part of the comparison with the plain file that does not depend on the
+   security handler is proved: a string of n bytes costs n + 2 .. 2 n + 2 bytes in the file as a literal string
+   (parentheses + one escape per unbalanced parenthesis, backslash, CR) and exactly 2 n + 2 as a hexadecimal string.
+   Hence NO bound of the form |save xt d1| <= 2 * |save xt d| + c holds: the empty string (2 bytes in the file)
+   becomes a 32-byte AES ciphertext (IV + one padding block), 34 .. 66 bytes in the file; the honest bound is
+   2 * |save xt d| + 64 * (number of strings) + 33 * (number of streams) + c, which needs an induction over
+   encrypt_object for each crypt filter and is not proved.
+   ------------------------------------------------------------------------------------------ *)
+From LV Require Model.Writer Proofs.SaveSizeProofs.
+
+Theorem C05_string_written_length_partial :
+  forall s : list Byte.byte,
+    (length s + 2 <= length (Writer.write_literal s) <= 2 * length s + 2)%nat /\
+    length (Writer.write_hex s) = (2 * length s + 2)%nat.
+Proof. exact SaveSizeProofs.string_written_length. Qed.
+Print Assumptions C05_string_written_length_partial.
